@@ -62,8 +62,19 @@ def run_check(pid, tier, seed):
         smt_obls += eng.obls
         notes += [list(n) for n in eng.notes]
     verdicts = solve.discharge_all(smt_obls, tier)
+    # one obligation per name; it is decided on every path that reaches it (refuted if refuted on any path)
+    byname = {}
     for v in verdicts:
-        results.append(Result(v.o.name, v.o.kind, v.status, v.o.func, v.o.line, v.solver or "", v.ms, v.detail, v.model))
+        byname.setdefault(v.o.name, []).append(v)
+    for name, vs in byname.items():
+        rank = {"refuted": 0, "undecided": 1, "proved": 2}
+        vs.sort(key=lambda v: rank.get(v.status, 1))
+        w = vs[0]
+        d = dict(w.detail)
+        d["stage"] = w.stage
+        d["path_instances"] = len(vs)
+        solvers = sorted(set(v.solver for v in vs if v.solver))
+        results.append(Result(name, w.o.kind, w.status if w.status in rank else "undecided", w.o.func, w.o.line, "+".join(solvers), sum(v.ms for v in vs), d, w.model))
     # extra checks supplied by the contract module (finite/relational/frame scans) -- they return Result lists
     bounded = []
     for fn in getattr(cm, "EXTRA_CHECKS", []):
